@@ -177,10 +177,19 @@ func init() {
 				}
 			}
 		}
+		// two generated one-parameter functions passed through the same higher-order call site
+		for i := 0; i < nf/4; i++ {
+			f1, f2 := genFn(e.Rng, 1), genFn(e.Rng, 1)
+			a := e.Rng.Intn(4)
+			tm := f1.src("f") + f2.src("g") + "<% let ap = fn(h, x) { return h(x) } %>" + fmt.Sprintf("<%%= ap(f, %d) %%>|<%%= ap(g, %d) %%>|<%%= ap(f, %d) %%>", a, a, a)
+			judge("apply2", tm, sink16(f1.eval([]int{a}))+"|"+sink16(f2.eval([]int{a}))+"|"+sink16(f1.eval([]int{a})), nil)
+		}
 		// higher-order and recursion
 		fixed := [][2]string{
 			{`<% let inc = fn(x) { return x + 1 } %><% let ap = fn(h, x) { return h(h(x)) } %><%= ap(inc, 3) %>`, "5"},
 			{`<% let mk = fn(k) { return fn(j) { return j * 2 } } %><% let d = mk(1) %><%= d(4) %>`, "8"},
+			{`<% let lo = fn(a, b) { if (a < b) { return a } return b } %><% let hi = fn(a, b) { if (a < b) { return b } return a } %><% let apply = fn(g, a, b) { return g(a, b) } %><%= apply(lo, 3, 7) %>|<%= apply(hi, 3, 7) %>|<%= apply(lo, 3, 7) %>`, "3|7|3"},
+			{`<% let twice = fn(g, x) { return g(g(x)) } %><%= twice(fn(v) { return v + 1 }, 1) %>|<%= twice(fn(v) { return v * 3 }, 1) %>|<%= for (k) in [1, 2] { %><%= twice(fn(v) { return v + k }, 0) %>,<% } %>`, "3|9|2,4,"},
 			{`<% let fact = fn(n) { if (n <= 1) { return 1 } return n * fact(n - 1) } %><%= fact(6) %>`, "720"},
 			{`<% let fib = fn(n) { if (n < 2) { return n } return fib(n - 1) + fib(n - 2) } %><%= fib(10) %>`, "55"},
 			{`<% let sum = fn(n) { if (n == 0) { return 0 } return n + sum(n - 1) } %><%= sum(20) %>`, "210"},
